@@ -210,8 +210,40 @@ func ivInfluence(v *IView, sinks []ivValue, lenSeparately bool) map[string]bool 
 					continue
 				}
 				if isLen && lenSeparately {
-					// the length of what the caller passed: a slice built by the caller has a length of
-					// its own; keep following the value (its construction decides)
+					// the length of what the caller passed: when the caller hands on its own parameter,
+					// it is the length of that parameter (followed further up); a slice built by the
+					// caller has a length of its own: keep following the value (its construction decides)
+					if pa, isParam := stripConv(args[idx]).(*ssa.Parameter); isParam {
+						up := fr.parent
+						key := "len(p" + paramIndex(pa) + ")"
+						for up != nil {
+							if up.parent == nil {
+								out[key] = true
+								break
+							}
+							// the parent is itself inlined: translate once more
+							pargs := up.site.Common().Args
+							pi := -1
+							for q, fp := range up.fn.Params {
+								if fp == pa {
+									pi = q
+								}
+							}
+							if pi < 0 || pi >= len(pargs) {
+								add(up.parent, pargs[0])
+								break
+							}
+							next, ok := stripConv(pargs[pi]).(*ssa.Parameter)
+							if !ok {
+								add(up.parent, pargs[pi])
+								break
+							}
+							pa = next
+							key = "len(p" + paramIndex(pa) + ")"
+							up = up.parent
+						}
+						continue
+					}
 					add(fr.parent, args[idx])
 					continue
 				}
